@@ -43,6 +43,7 @@ class Lib:
         self.dll = ctypes.CDLL(self.path, mode=ctypes.RTLD_LOCAL)
         self.wbytes = 4 if '32' in cfg and cfg != 'bash32' else 8
         self._fn = {}
+        self.hook = None          # optional interceptor: hook(name, args) -> args (C09 call-level NULL sweep)
         self.dll.vh_alloc.restype = ctypes.c_uint64
         self.dll.vh_alloc.argtypes = [ctypes.c_uint64]
         self.dll.vh_free.argtypes = [ctypes.c_uint64]
@@ -68,6 +69,8 @@ class Lib:
     def call(self, name, *args):
         """call name(args): ints are passed as 64-bit, Buf as its address, bytes as a read-only pointer,
         None as NULL; returns the raw 64-bit rax (use u32()/sz() to interpret)"""
+        if self.hook is not None:
+            args = self.hook(name, args)
         conv = []
         for a in args:
             if a is None:
